@@ -51,6 +51,13 @@ def cmd_setup():
     return 0 if ok else 3
 
 
+class Ob:
+    """Obligation as plain data (name, kind, path, smt2, watch, meta)."""
+
+    def __init__(self, d):
+        self.name, self.kind, self.path, self.smt2, self.watch, self.meta = d["name"], d["kind"], d.get("path", 0), d["smt2"], d.get("watch", {}), d.get("meta", {})
+
+
 def _safe(name: str) -> str:
     return re.sub(r"[^A-Za-z0-9_.\-\[\]]+", "_", name)[:180]
 
@@ -74,41 +81,39 @@ def run_property(pid: str, tier: str, seed: int) -> int:
     n_obl = n_dis = 0
     solver_s = 0.0
 
-    # ---------------- proof tier: units
+    # ---------------- proof tier: units (VC generation in worker processes; obligations come back as SMT-LIB text)
     all_obs = []
-    for unit in getattr(spec, "UNITS", []):
-        res = units.run_unit(unit)
-        if not res.found:
-            undecided.append({"unit": unit.name, "why": res.error})
+    unit_list = list(getattr(spec, "UNITS", []))
+    for unit, res in zip(unit_list, units.run_units_parallel(spec.__name__, unit_list)):
+        if not res["found"]:
+            undecided.append({"unit": unit.name, "why": res["error"]})
             unit_reports.append({"unit": unit.name, "found": False})
             continue
         trusted.update(unit.trusted)
-        trusted.update(f"assumed contract of `{c}` (used by {unit.target.split(':')[1]})" for c in res.calls_used if c not in getattr(spec, "VERIFIED_CALLEES", ()))
-        undecided.extend(res.undecided)
+        trusted.update(f"assumed contract of `{c}` (used by {unit.target.split(':')[1]})" for c in res["calls_used"] if c not in getattr(spec, "VERIFIED_CALLEES", ()))
+        undecided.extend(res["undecided"])
         for cov in unit.expect_cover:
-            if not any(k == cov or k.startswith(cov) for k in res.covers):
-                warnings.append(f"vacuity: unit {unit.name} never reaches `{cov}` (reached: {sorted(res.covers)})")
+            if not any(k == cov or k.startswith(cov) for k in res["covers"]):
+                warnings.append(f"vacuity: unit {unit.name} never reaches `{cov}` (reached: {sorted(res['covers'])})")
         unit_reports.append({
-            "unit": unit.name, "function": unit.target, "file": res.file, "lines": list(res.lines), "source_sha256_16": res.src_hash,
-            "paths": res.paths, "covers": res.covers, "obligations": len([o for o in res.obligations if o.kind != "canary"]),
-            "undecided_paths": len(res.undecided), "vcgen_s": round(res.gen_s, 3),
+            "unit": unit.name, "function": unit.target, "file": res["file"], "lines": res["lines"], "source_sha256_16": res["src_hash"],
+            "paths": res["paths"], "covers": res["covers"], "obligations": len([o for o in res["obligations"] if o["kind"] != "canary"]),
+            "undecided_paths": len(res["undecided"]), "vcgen_s": round(res["gen_s"], 3),
         })
-        for ob in res.obligations:
-            all_obs.append((unit, ob))
+        for ob in res["obligations"]:
+            all_obs.append((unit, Ob(ob)))
     # lemmas (obligations without code, over extracted tables)
     for lemma in getattr(spec, "LEMMAS", []):
         try:
             for ob in lemma.build():
-                all_obs.append((lemma, ob))
+                all_obs.append((lemma, Ob(ob)))
             trusted.update(getattr(lemma, "trusted", []))
         except Exception as ex:
             undecided.append({"unit": lemma.name, "why": f"lemma could not be built: {ex!r}"})
 
     jobs = []
     for unit, ob in all_obs:
-        smt2 = ob.smt2 or units.to_smt2(ob)
-        watch = {k: (v.sexpr() if hasattr(v, "sexpr") else str(v)) for k, v in (ob.meta.get("watch") or {}).items()}
-        job = {"smt2": smt2, "watch": watch, "timeout_s": ob.meta.get("timeout_s", timeout_s), "strings": ob.meta.get("strings", False)}
+        job = {"smt2": ob.smt2, "watch": ob.watch, "timeout_s": ob.meta.get("timeout_s", timeout_s), "strings": ob.meta.get("strings", False)}
         if ob.kind == "canary":
             job.update(timeout_s=3, only="z3", watch={})
         jobs.append(job)
@@ -154,8 +159,8 @@ def run_property(pid: str, tier: str, seed: int) -> int:
     os.makedirs(os.path.join(VERIF, "replays", pid), exist_ok=True)
     seen_groups = set()
     for unit, ob, job, r in refuted:
-        group = re.sub(r"/p\d+$", "", ob.name)
-        rfile = os.path.join(VERIF, "replays", pid, _safe(group.split("/", 1)[1]) + f".p{ob.path}.json")
+        group = re.sub(r"/(s\d+)?p\d+$", "", ob.name)
+        rfile = os.path.join(VERIF, "replays", pid, _safe(ob.name.split("/", 1)[1]) + ".json")
         record = {
             "property": pid, "obligation": ob.name, "unit": unit.name, "kind": "vc-counterexample", "decisions": ob.meta.get("decisions"),
             "solver": {"backend": r["backend"], "time_s": r["time_s"], "verdict": "sat (negated obligation satisfiable)", "model": r["model"]},
